@@ -218,7 +218,7 @@ def _run(tier, replay):
         f.write(p.stdout)
     jobs = [("resp", lambda: tlc("Trace_HttpResp.tla", "Trace_HttpResp.cfg", env={"TRACE": tr}, deque=True, heap="3g"))]
     # trace binding self-test: the first records with one logged field flipped must be rejected by TLC
-    recs = [json.loads(x) for x in p.stdout.splitlines()[:24]]
+    recs = [json.loads(x) for x in [y for y in p.stdout.split("\n") if y.strip()][:24]]
     victim = next(i for i, x in enumerate(recs) if x["k"] == "parse")
     recs[victim]["got"]["body"][1] = "0" * 16
     trs = os.path.join(work, "random-selftest-%d.ndjson" % os.getpid())
@@ -243,7 +243,7 @@ def _run(tier, replay):
     ctx.cov["traces_validated_against_impl"] += n
     ctx.add_part("random responses", records=n, parsed_bytewise_by_tlc=verdict["parsed_bytewise"], rejected=len(verdict["rejected"]),
                  attributed_CrlfAfterBody=verdict["CrlfAfterBody"])
-    lines = p.stdout.splitlines()
+    lines = [y for y in p.stdout.split("\n") if y.strip()]   # not splitlines(): U+0085 inside a header value is not a line break
     if verdict["CrlfAfterBody"]:
         ctx.violation("CRLF follows a non-empty body in %d random serialisations (bytes beyond the message; Trace_HttpResp attributes exactly this)" % verdict["CrlfAfterBody"],
                       {"kind": "trace", "record": json.loads(lines[verdict["first_CrlfAfterBody"] - 1])}, dev="CrlfAfterBody")
@@ -267,7 +267,7 @@ def _run(tier, replay):
     ctx.cov["parts"]["binding self-test"]["corrupted_trace_record_rejected"] = bool(hit)
     if client_ok:
         t = tv["client"]
-        nev = len(p2.stdout.splitlines())
+        nev = len([y for y in p2.stdout.split("\n") if y.strip()])
         ctx.add_tlc("trace validation of %d random redirect scripts, %d events (Trace_Client)" % (nruns, nev), t)
         verdict = t.prints[-1] if t.prints else None
         if verdict is None or verdict.get("n") != nev:
